@@ -45,6 +45,7 @@ type scFS struct {
 	files  map[string][]byte
 	faults map[string]byte // by file name
 	dirs   map[string]bool
+	opens  map[string]int // how often a name has been opened in this case
 }
 
 type scInfo struct {
@@ -97,8 +98,16 @@ func (m *scFS) Stat(name string) (fs.FileInfo, error) {
 
 func (m *scFS) Open(name string) (fs.File, error) {
 	k := m.key(name)
-	switch m.faults[k] {
-	case 'x':
+	m.opens[k]++
+	fault := m.faults[k]
+	// caddy hands file_server a wrapper that only promotes Open, so fs.Stat is Open+Stat+Close: "Stat
+	// succeeds, Open fails" means the FIRST open of the sidecar works and the next one does not (removed,
+	// made unreadable, descriptors exhausted in between). 'X' fails from the first open on.
+	if fault != 'X' && m.opens[k] == 1 {
+		fault = 0
+	}
+	switch fault {
+	case 'x', 'X':
 		return nil, &fs.PathError{Op: "open", Path: name, Err: fs.ErrPermission}
 	case 'n':
 		return nil, &fs.PathError{Op: "open", Path: name, Err: fs.ErrNotExist}
@@ -191,7 +200,7 @@ func scSetup() error {
 	for _, c := range scCodings {
 		scSidecars[c] = append([]byte("SIDECAR-"+c+":"), genPayload('r', 300, len(c))...)
 	}
-	scWorld = &scFS{files: map[string][]byte{}, faults: map[string]byte{}, dirs: map[string]bool{}}
+	scWorld = &scFS{files: map[string][]byte{}, faults: map[string]byte{}, dirs: map[string]bool{}, opens: map[string]int{}}
 	base.FileSystems().Register("verif_c15", scWorld)
 	return nil
 }
@@ -281,6 +290,7 @@ func (p *prop) runSc(f []string) core.Outcome {
 	scWorld.files = map[string][]byte{scFile: scContent}
 	scWorld.faults = map[string]byte{}
 	scWorld.dirs = map[string]bool{}
+	scWorld.opens = map[string]int{}
 	for i, cod := range scCodings {
 		name := scFile + scSuffix[cod]
 		switch c.faults[i] {
@@ -294,14 +304,14 @@ func (p *prop) runSc(f []string) core.Outcome {
 		if c.etag != '0' {
 			scWorld.files[name+".etag"] = []byte(`"side-` + cod + `"`)
 			if c.etag == '2' {
-				scWorld.faults[name+".etag"] = 'x'
+				scWorld.faults[name+".etag"] = 'X'
 			}
 		}
 	}
 	if c.etag != '0' {
 		scWorld.files[scFile+".etag"] = []byte(`"plain"`)
 		if c.etag == '2' {
-			scWorld.faults[scFile+".etag"] = 'x'
+			scWorld.faults[scFile+".etag"] = 'X'
 		}
 	}
 
